@@ -15,7 +15,7 @@ LEVEL = "exploration"
 N_QUICK, N_THOROUGH = 32000, 1000000
 T_QUICK, T_THOROUGH = 70, 1500
 FLOORS = {"scalar_echo_calls": 20000, "scalar_extremes": 3000, "object_address_calls": 5000, "addresses_after_growth": 800,
-          "pointer_arg_calls": 3000, "xobject_array_pointer_calls": 500, "slice_pointer_calls": 500, "refusals_checked": 3000,
+          "pointer_arg_calls": 3000, "xobject_array_pointer_calls": 500, "slice_pointer_calls": 500, "noncontiguous_2d_pointer_calls": 500, "refusals_checked": 3000, "calls_via_attribute_dispatch": 5000,
           "mixed_signature_calls": 500, "ctx:serial": 1000, "ctx:openmp": 1000}
 FLOORS.update({f"echo:{k}": 800 for k in SC})
 RULE = ("echo kernels compiled once per worker in a serial and an OpenMP ContextCpu: id_<T>(x) for the 10 scalar types, "
@@ -78,6 +78,20 @@ def setup(w):
     _S.update(PS=PS, PA=PA, PB=PB, PU=PU, ctxs=ctxs)
 
 
+class _Kernels:
+    """Both documented ways to reach a kernel: ctx.kernels.<name>(...) (attribute: goes through the dispatcher that
+    refuses positional arguments) and ctx.kernels[<name>](...)."""
+
+    def __init__(self, kernels, rng, w):
+        self.k, self.rng, self.w = kernels, rng, w
+
+    def __getitem__(self, name):
+        if self.rng.random() < 0.6:
+            self.w.count("calls_via_attribute_dispatch")
+            return getattr(self.k, name)
+        return self.k[name]
+
+
 def _clone(kern):
     out = {}
     for k, v in kern.items():
@@ -110,7 +124,7 @@ def scalar_values(rng, tn, w):
 def run_case(w, rng):
     cname = rng.choice(["serial", "openmp"])
     ctx = _S["ctxs"][cname]
-    K = ctx.kernels
+    K = _Kernels(ctx.kernels, rng, w)
     w.count("ctx:" + cname)
     kind = rng.choice(["echo", "echo", "objects", "objects", "pointers", "refusals", "mix"])
     seen = set()
@@ -197,7 +211,8 @@ def run_case(w, rng):
             dt = DT[tn]
             n = rng.randint(4, 12)
             base = (np.arange(n * 2) * 3 + 7).astype(dt)
-            forms = ["ndarray", "slice", "strided", "2d", "2d-slice", "xobject", "xobject-in-struct"]
+            forms = ["ndarray", "slice", "strided", "2d", "2d-slice", "2d-block", "2d-transposed", "2d-fortran",
+                     "xobject", "xobject-in-struct"]
             form = rng.choice(forms)
             info["form"], info["type"] = form, tn
             if form == "ndarray":
@@ -220,6 +235,21 @@ def run_case(w, rng):
                 arr = m[1:, 2:]
                 addr, first = m.ctypes.data + (n + 2) * dt.itemsize, m[1, 2]
                 w.count("slice_pointer_calls")
+            elif form == "2d-block":  # a multi-row sub-block: not contiguous in any order
+                m = base.reshape(n, 2)
+                r0 = rng.randint(0, n - 3)
+                arr = m[r0:, 1:]
+                addr, first = m.ctypes.data + (2 * r0 + 1) * dt.itemsize, m[r0, 1]
+                w.count("noncontiguous_2d_pointer_calls")
+            elif form == "2d-transposed":
+                m = base.reshape(2, n)
+                arr = m.T
+                addr, first = m.ctypes.data, m[0, 0]
+                w.count("noncontiguous_2d_pointer_calls")
+            elif form == "2d-fortran":
+                arr = np.asfortranarray(base.reshape(2, n))
+                addr, first = arr.ctypes.data, arr[0, 0]
+                w.count("noncontiguous_2d_pointer_calls")
             else:
                 env = Env(rng, ctx=ctx)
                 try:
